@@ -52,7 +52,7 @@ def _gen_queue(rng, tier):
     handlers = []
     for _ in range(rng.randint(2, 9)):
         kind = rng.choice(["sync", "sync", "wait", "wait", "wait_now", "async", "nested", "wait_post", "sync_false",
-                           "wait_false", "async_cancel"])
+                           "wait_false", "async_cancel", "wait_remove", "wait_add"])
         handlers.append([rng.choice(EVENTS), rng.choice([1, 1, 2, 2, 5, 10]), kind, rng.choice(DELAYS),
                          rng.choice(EVENTS)])
     posts = []
@@ -256,7 +256,8 @@ def _run_queue(case):
     clauses = {"queue_sequence": 0, "queue_callback_once": 0, "no_enter_during_wait": 0, "callback_after_last_clear": 0,
                "queue_progress": 0, "queue_priority_order": 0}
     obs = {"queue_posts": 0, "waits": 0, "clears": 0, "enters": 0, "max_open_waits": 0, "nested_queue_posts": 0,
-           "enters_of_other_posts_during_wait": 0, "async_handlers": 0, "async_cancelled": 0}
+           "enters_of_other_posts_during_wait": 0, "async_handlers": 0, "async_cancelled": 0,
+           "removed_in_flight": 0, "added_in_flight": 0}
     viol = []
 
     def V(clause, sig, **d):
@@ -269,19 +270,27 @@ def _run_queue(case):
         log = []            # (kind, pid, hid, t)
         st = {"pid": 0, "open": {}, "last_clear_time": 0.0, "budget": 12}
         regs = {}           # event -> [(hid, prio)]
+        reglog = {}         # hid -> {"event", "prio", "add": seq, "rem": seq or None, "key": handler key}
+
+        def tick():
+            st["seq"] = st.get("seq", 0) + 1
+            return st["seq"]
         posts = {}          # pid -> dict
 
         def post_queue(event, nested_parent=None):
             st["pid"] += 1
             pid = st["pid"]
             posts[pid] = {"event": event, "cb": 0, "entered": [], "open_wait": None, "cb_time": None,
-                          "last_clear": None, "t_post": vm.now(), "parent": nested_parent}
+                          "last_clear": None, "t_post": vm.now(), "parent": nested_parent, "seq_post": tick(),
+                          "seq_cb": None}
             obs["queue_posts"] += 1
 
             def cb(**kwargs):
                 P = posts[pid]
                 P["cb"] += 1
                 P["cb_time"] = vm.now()
+                if P["seq_cb"] is None:
+                    P["seq_cb"] = tick()
                 log.append(("cb", pid, None, vm.now()))
                 clauses["queue_callback_once"] += 1
                 if P["cb"] > 1:
@@ -402,6 +411,33 @@ def _run_queue(case):
                     st["last_clear_time"] = max(st["last_clear_time"], vm.now() + delay)
                     vm.loop.call_later(delay, ev.post, name)
                     return
+                if kind == "wait_remove":
+                    # hold the queue and, meanwhile, remove the first other handler of the same event (the handler
+                    # set of an event in flight changes); handlers registered throughout must still all run once
+                    do_wait(P, pid, hid, queue)
+                    for ohid, R in sorted(reglog.items(), key=lambda x: (-x[1]["prio"], x[0])):
+                        if ohid != hid and R["event"] == P["event"] and R["rem"] is None and st["budget"] > 0:
+                            st["budget"] -= 1
+                            R["rem"] = tick()
+                            obs["removed_in_flight"] += 1
+                            ev.remove_handler_by_key(R["key"])
+                            break
+                    st["last_clear_time"] = max(st["last_clear_time"], vm.now() + delay)
+                    vm.loop.call_later(delay, do_clear, P, pid, hid, queue)
+                    return
+                if kind == "wait_add":
+                    # hold the queue and, meanwhile, register a higher-priority handler for the same event
+                    do_wait(P, pid, hid, queue)
+                    if st["budget"] > 0:
+                        st["budget"] -= 1
+                        nh = st["next_hid"]
+                        st["next_hid"] += 1
+                        nprio = max([R["prio"] for R in reglog.values() if R["event"] == P["event"]] + [prio]) + 1
+                        obs["added_in_flight"] += 1
+                        register(nh, P["event"], nprio, "sync", 0.0, P["event"])
+                    st["last_clear_time"] = max(st["last_clear_time"], vm.now() + delay)
+                    vm.loop.call_later(delay, do_clear, P, pid, hid, queue)
+                    return
                 if kind == "nested":
                     if st["budget"] <= 0:
                         return
@@ -412,13 +448,18 @@ def _run_queue(case):
                     return
             return h, False
 
-        for hid, (event, prio, kind, delay, other) in enumerate(case["handlers"]):
+        def register(hid, event, prio, kind, delay, other):
             fn, is_async = make_handler(hid, prio, kind, delay, other)
             if is_async:
-                ev.add_async_handler(event, fn, priority=prio)
+                key = ev.add_async_handler(event, fn, priority=prio)
             else:
-                ev.add_handler(event, fn, priority=prio)
+                key = ev.add_handler(event, fn, priority=prio)
             regs.setdefault(event, []).append((hid, prio))
+            reglog[hid] = {"event": event, "prio": prio, "add": tick(), "rem": None, "key": key}
+
+        st["next_hid"] = len(case["handlers"])
+        for hid, (event, prio, kind, delay, other) in enumerate(case["handlers"]):
+            register(hid, event, prio, kind, delay, other)
 
         try:
             for dt, event, burst in case["posts"]:
@@ -444,9 +485,17 @@ def _run_queue(case):
                 V("queue_progress", "queue_callback_never_ran" if P["cb"] == 0 else "queue_callback_ran_twice",
                   pid=pid, event=P["event"], entered=P["entered"], open_wait=P["open_wait"], now=vm.now())
             clauses["queue_sequence"] += 1
-            exp = sorted(regs.get(P["event"], []), key=lambda x: -x[1])
-            if sorted(h for h, _ in P["entered"]) != sorted(h for h, _ in exp):
-                V("queue_sequence", "queue_handler_set_wrong", pid=pid, entered=P["entered"], expected=exp)
+            # handlers registered from before the post until the completion must all have run (once: see on_enter);
+            # nothing may run that was not registered at some moment while the event was in flight
+            end = P["seq_cb"] if P["seq_cb"] is not None else float("inf")
+            must = sorted(h for h, R in reglog.items() if R["event"] == P["event"] and R["add"] < P["seq_post"] and
+                          (R["rem"] is None or R["rem"] > end))
+            may = set(h for h, R in reglog.items() if R["event"] == P["event"] and R["add"] < end and
+                      (R["rem"] is None or R["rem"] > P["seq_post"]))
+            got = [h for h, _ in P["entered"]]
+            if P["cb"] and (not set(must) <= set(got) or not set(got) <= may):
+                V("queue_sequence", "queue_handler_set_wrong", pid=pid, entered=P["entered"], expected=must,
+                  allowed=sorted(may))
         clauses["queue_progress"] += 1
         if ev._queue_tasks:
             V("queue_progress", "queue_task_left_at_horizon", n=len(ev._queue_tasks))
